@@ -127,3 +127,12 @@ package xstar
 //@   before call:SetPrivate#1 assert p.p == pp && p.s == s
 //@
 // ---- end generated AddPipe contracts ----
+
+// ---- round 5 ----
+//@ func (*pipe).receiver
+//@   loop 2 complete
+//@   loop 2 ensures p2 != p ==> called_since("loop2:head", "Dup")
+//@   before select#1 assert selsends(p2.sendq)
+//@   before select#1 assert p2 != p
+//@   before select#1 assert eqseq(m2.Header, m.Header)
+//@   before select#1 assert eqseq(m2.Body, m.Body)
